@@ -13,6 +13,15 @@ What is modelled (line numbers of /repo/nibabel/parrec.py after the `fix:` commi
 * `get_data_scaling` (1030-1077; dv and fp), `PARRECArrayProxy._get_unscaled` (649-656: gather of the
   REC slabs by the index list, F-order reshape), `get_volume_labels` (1212-1262).
 
+* the CALL STRUCTURE of a load (`loadSites`, end of this file): `PARRECHeader.__init__`/`copy()`
+  (720-777), the four call sites of `get_sorted_slice_indices` (proxy 632, `get_data_scaling` 1072 on
+  both header objects, `get_volume_labels` 1226), every column gathered by position (`gather`).
+
+Tie to the source beyond the correspondence run (Lemmas/C20_GenFuncs, Generated/C20Funcs): `vol_numbers`
+is translated from the working tree on every run and proved equal to `occNumbers`; the lexsort key
+tuples, `dynamic_keys` and the per-version field lists are read off the source and proved to yield
+`strictKey` / `dynamicKeys`.
+
 Abstractions (trusted, exercised by the correspondence run):
 
 * a slice record is the tuple of its integer label fields + three integer-valued scale factors + an
